@@ -1558,6 +1558,25 @@ func c07Corpus() []C07Case {
 				Args: []C07Seg{{"pair", big}}})
 		}
 	}
+	// large CHAINS: what the loggers of a chain contribute exceeds the pooled slice (128 entries in a new process) before
+	// the call's own arguments are looked at - three loggers with 45 / 70 attributes each, a context key, inherit on
+	for _, per := range []int{45, 70} {
+		mk := func(pfx string) []GAttr {
+			var as []GAttr
+			for i := 0; i < per; i++ {
+				as = append(as, iv(fmt.Sprintf("%s%02d", pfx, (i*29)%per), int64(i)))
+			}
+			return as
+		}
+		for _, h := range []string{"fresh", "fresh+warm", "warm+twice"} {
+			base = append(base, C07Case{Kind: "corpus:large-chain", Inherit: true, Call: "InfoContext", Msg: "m", Hist: h,
+				Ctx: []C07KV{{C07Key{Kind: "str", S: "reqid"}, GVal{Kind: "string", S: "r-43"}}},
+				Chain: []C07Logger{{Name: "r", Create: "OptAttrs1", Segs: []C07Seg{{"attrs", mk("ra")}}},
+					{Name: "m", Create: "With", Segs: []C07Seg{{"pair", mk("mb")}}},
+					{Name: "l", Create: "WithAttrs", Segs: []C07Seg{{"attrs", mk("lc")}}, Keys: []C07Key{{Kind: "str", S: "reqid"}}}},
+				Args: []C07Seg{{"pair", []GAttr{iv("arg", 7), iv("ra01", -1)}}}})
+		}
+	}
 	// context corner cases: nil context, a nil layer hiding a value, string and Stringer key of one name, an unregistered key
 	keys := []C07Key{{Kind: "str", S: "a"}, {Kind: "stringer", S: "a"}, {Kind: "str", S: "b"}, {Kind: "other", ID: 1}, {Kind: "stringer", S: "c"}}
 	cx := C07Case{Kind: "corpus:context", Call: "InfoContext", Msg: "m", Chain: []C07Logger{{Name: "r", Create: "Plain", Keys: keys, KeySplit: 2}},
